@@ -22,9 +22,9 @@ def chunked(entries, n=600):
 
 def generate(tier, rng):
     cases = []
-    years = [2020, 2021, 1900, 2000, 1, 9999, 2400, 2100] if tier == 'thorough' else [2020, 1900, 2000]
+    years = [2020, 1900, 2000, 1, 9999, 2100] if tier == 'thorough' else [2020, 1900, 2000]
     if tier == 'thorough':
-        ds = list(range(0, 301)); ms = list(range(0, 301))
+        ds = list(range(0, 70)) + list(range(250, 301, 2)); ms = list(range(0, 40)) + list(range(250, 301, 2))
     else:
         ds = [0, 1, 2, 15, 27, 28, 29, 30, 31, 32, 33, 60, 255, 256, 257, 284, 285, 286, 287, 300]
         ms = [0, 1, 2, 3, 4, 6, 9, 11, 12, 13, 14, 255, 256, 257, 258, 260, 268, 300]
@@ -87,7 +87,7 @@ def generate(tier, rng):
         acc += ['DAY(%d/%d/%d)' % (d, m, y), 'MONTH(SETDATE(%d, %d, %d))' % (d, m, y), 'YEAR(%d/%d/%d)' % (d, m, y)]
     cases.append(Case(mode='repl', stdin=gen.join(acc), limits=BIG, meta=dict(gen='accessors', dates=dates[:200])))
     # comparisons on a sample of dates
-    sample = rng.sample(dates, min(len(dates), 400 if tier == 'thorough' else 60))
+    sample = rng.sample(dates, min(len(dates), 150 if tier == 'thorough' else 60))
     sample += [(28, 2, 2023), (1, 3, 2023), (31, 1, 2023), (1, 2, 2023), (31, 12, 1999), (1, 1, 2000)]
     ent = []; exp = []
     for a in sample:
